@@ -4,7 +4,7 @@ from harness import gen_seq
 from runner import Case, CaseSet
 
 ID = 'C20'
-OBLIGATIONS = ['Props/C20.v', 'Props/Tie/html_tie.v']
+OBLIGATIONS = ['Props/C20.v', 'Props/Tie/html_tie.v', 'Props/Tie/minipy_html_tie.v']
 RULE = ('sequences of lengths 1, 9, 10, 11, 49, 50, 51, 101 and random (<= 130) x histories of 1..5 palette updates '
         '(valid random; one key missing; one invalid colour; capitalised colour; extra keys; non-dict) the caller re-using and editing ONE dict object between calls, each followed by a '
         'rendering compared byte for byte; non-trivial = distinct (sequence, history) with >= 1 accepted update')
